@@ -532,6 +532,24 @@ func requotedLiterals(src, formatted string) (octal, decoded []string) {
 	return octal, decoded
 }
 
+// joinedContinuations pairs the string literals whose asp value differs between the two texts exactly by the
+// backslash-newline pairs of the first (asp keeps both bytes in a single-line literal; a re-quoted literal loses them).
+func joinedContinuations(src, formatted string) []string {
+	out := []string{}
+	b := map[string]bool{}
+	for _, y := range stringLiterals(formatted) {
+		b[y] = true
+	}
+	for _, x := range stringLiterals(src) {
+		if y := strings.ReplaceAll(x, "\\\n", ""); y != x && !b[x] && b[y] {
+			out = append(out, x+" -> "+y)
+		}
+	}
+	return out
+}
+
+var negOctal = regexp.MustCompile(`-0o[0-9]`)
+
 // continuation after a string literal, followed by a line that starts with a string literal
 var stringContinuation = regexp.MustCompile(`["'] \\\n\s*[rf]?["']`)
 var anyContinuation = regexp.MustCompile(`\\\n`)
@@ -546,6 +564,7 @@ type e2eCase struct {
 	Consumer string          `json:"consumer,omitempty"`
 	Feat     map[string]bool `json:"-"`
 	Fixed    bool            `json:"fixed,omitempty"`
+	Exprs    []xExpr         `json:"exprs,omitempty"` // expression file (expr.go): every expression is compared on its own
 }
 
 func (e e2eCase) fileName() string {
@@ -583,6 +602,14 @@ var fixedCases = []e2eCase{
 	{Kind: "build", Src: "build_rule(name = \"t\", cmd = \"true\", outs = [\"o2\", \"o1\"], tools = [\"//lib:other\", \"//lib:lib\"], data = [\"b.txt\", \"a.txt\"], exported_deps = [\"//lib:other\", \"//lib:lib\"], labels = [\"z\", \"a\"])\n"},
 	{Kind: "build", Src: "s = 'caf\xc3\xa9'\nt = \"caf\xc3\xa9\"\nu = \"a\\\xc3\xa9\"\nfilegroup(name = \"t\", labels = [s, t, u, str(len(s))])\n"},
 	{Kind: "build", Src: "filegroup(name = \"t\", deps = [\"//lib:lib\", \"//lib:other\", \"//lib\"], visibility = [\"PUBLIC\", \"//c0/...\"])\n"},
+	// a triple-quoted string with a backslash-newline continuation that the formatter re-quotes (''' without double quotes inside)
+	{Kind: "build", Src: "COMMAND = '''echo one two \\\nthree > $OUT'''\n\ngenrule(\n    name = \"t\",\n    outs = [\"t.txt\"],\n    cmd = COMMAND,\n)\n"},
+	{Kind: "build", Src: "c = \"\"\"p \\\nq\\$\"\"\"\nd = \"\"\"kept \\\n  as it is\"\"\"\nfilegroup(name = \"t\", labels = [c, d])\n"},
+	// listed finding: the same continuation inside a single-line literal
+	{Kind: "build", Src: "s = 'x\\\ny'\nfilegroup(name = \"t\", labels = [s])\n"},
+	// listed finding: a minus in front of an integer literal with a leading zero
+	{Kind: "build", Src: "x = -017\nfilegroup(name = \"t\", labels = [str(x)])\n"},
+	{Kind: "build", Src: "x = 3 - (- 007)\nfilegroup(name = \"t\", labels = [str(x)])\n"},
 	{Kind: "build", Src: "x = 0644\ny = 1 - 2 * 3 - 4\nfilegroup(name = \"t\", labels = [str(x), str(y), '\\x41', 'it\\'s', \"tab\\there\"])\n"},
 }
 
@@ -640,7 +667,10 @@ func main() {
 			simplifyCase(c, b.String(), g.feat["sub_nonliteral_concat"] || g.feat["sub_nonliteral_list"])
 		}
 
-		// ---- 3. e2e ---------------------------------------------------------------------------------
+		// ---- 3. string literals (in process) ----------------------------------------------------------
+		stringStream(c)
+
+		// ---- 4. e2e ---------------------------------------------------------------------------------
 		if os.Getenv("VERIF_PLZ") == "" {
 			c.Note("VERIF_PLZ not set: the e2e stream was skipped")
 			return
@@ -675,6 +705,19 @@ func e2e(c *lib.Ctx) {
 				kind = "defs"
 			}
 			cases = append(cases, e2eCase{Kind: kind, Src: src, Consumer: consumer, Feat: feat})
+		}
+		// expression files (expr.go): one fixed expression per file, then generated files of several expressions
+		for _, fe := range fixedExprs {
+			e := xExpr{Name: "e0", Text: fe.text, Chain: fe.chain, Int: true}
+			e.Defect, e.Lead = fe.chain.foldAfterBinary(false), fe.chain.hasLeadingFold()
+			src := fmt.Sprintf("V0 = %d\nV1 = %d\nV2 = %d\ne0 = %s\n", xVars[0], xVars[1], xVars[2], fe.text) + xProbe([]xExpr{e})
+			cases = append(cases, e2eCase{Kind: "build", Src: src, Exprs: []xExpr{e}, Fixed: true, Feat: map[string]bool{"expression_file": true}})
+		}
+		nx := c.Scale(40, 600)
+		for i := 0; i < nx; i++ {
+			r := c.Rng.Fork()
+			src, exprs := exprFile(r, r.Range(6, 12), i%5 == 4)
+			cases = append(cases, e2eCase{Kind: "build", Src: src, Exprs: exprs, Feat: map[string]bool{"expression_file": true}})
 		}
 	}
 	for i := range cases {
@@ -833,12 +876,20 @@ func e2e(c *lib.Ctx) {
 					"an implicit concatenation of string literals outside brackets is printed with a backslash line continuation, which asp rejects: "+after[i].Err, js)
 			case strings.Contains(after[i].Err, "Unknown symbol \\") || anyContinuation.MatchString(o.Formatted):
 				c.Fail("backslash-continuation-other", "the formatter emitted a backslash continuation outside an implicit string concatenation: "+after[i].Err, js)
+			case negOctal.MatchString(o.Formatted) && !negOctal.MatchString(cs.Src) && strings.Contains(after[i].Err, "unexpected token o"):
+				c.Fail("negative-leading-zero-integer-printed-as-minus-0o",
+					"an integer literal with a leading zero under a unary minus (-017) is printed as -0o17; the asp lexer reads -0 and then the identifier o17: "+after[i].Err, js)
 			case moved && strings.Contains(after[i].Err, "is not defined"):
 				c.Fail("fstring-subinclude-arg-hoisted-over-earlier-subinclude",
 					"simplify merged subinclude calls and moved an f-string argument in front of the subinclude that defines the name it uses: "+after[i].Err, js)
 			default:
 				c.Fail("formatted-file-rejected", "Please accepts the file but rejects the formatted file: "+after[i].Err, js)
 			}
+			continue
+		}
+		if len(cs.Exprs) > 0 {
+			// an expression file: every expression on its own (and the model cases of the integer chains)
+			exprOracle(c, cs, o.Formatted, before[i], after[i])
 			continue
 		}
 		ds := diffTargets(canon(before[i].Targets), canon(after[i].Targets))
@@ -899,6 +950,10 @@ func e2e(c *lib.Ctx) {
 				c.Fail("requoted-string-hex-or-octal-escape-decoded",
 					"a string literal that the formatter re-quotes has its \\xHH / \\ooo escapes decoded, which asp reads as plain characters: the string value changes", js)
 			}
+		case len(joinedContinuations(cs.Src, o.Formatted)) > 0:
+			js["requoted"] = joinedContinuations(cs.Src, o.Formatted)
+			c.Fail("single-line-string-backslash-newline-joined",
+				"a backslash-newline inside a '...' literal is kept by asp (backslash and newline) but removed when the formatter re-quotes the literal", js)
 		default:
 			if d := os.Getenv("VERIF_C38_DUMP"); d != "" {
 				data, _ := json.MarshalIndent(js, "", " ")
